@@ -121,7 +121,7 @@ Definition si_wf (i : sitem) : Prop :=
   | SPath t a => fs_closed t = true /\ fs_strip_bt t = t /\
                  match a with Some x => fs_strip_bt x = x | None => True end
   | SLit q c a => (q = 39 \/ q = 34) /\ ~ In q c /\
-                  match a with Some x => fs_strip_bt x = x | None => ~ In 58 c /\ fs_strip_bt c = c /\ c <> [] end
+                  match a with Some x => fs_strip_bt x = x | None => fs_strip_bt c = c /\ c <> [] end
   end.
 
 Lemma fs_strip_bt_other : forall c s, c <> 96 -> fs_strip_bt (c :: s) = c :: s.
@@ -139,7 +139,7 @@ Proof. intros t H. unfold fs_compile. rewrite H. simpl. auto. Qed.
 
 Lemma fs_compile_names : forall i, si_wf i ->
   fi_out (fs_compile (si_spec i)) = si_name i /\
-  fi_field (fs_compile (si_spec i)) = match si_alias i, i with None, SLit _ c _ => c | _, _ => si_text i end.
+  fi_field (fs_compile (si_spec i)) = si_text i.
 Proof.
   intros [t a|q c a] H; simpl in H.
   - destruct H as [Hc [Ht Ha]]. destruct a as [x|].
@@ -154,10 +154,10 @@ Proof.
     + change (si_spec (SLit q c (Some x))) with ((q :: c ++ [q]) ++ 58 :: x).
       destruct (fs_compile_alias (q :: c ++ [q]) x (fs_closed_quoted q c Hquote Hc)) as [F O].
       rewrite F, O, Ha. rewrite (fs_strip_bt_other q (c ++ [q]) Hq96). simpl. auto.
-    + destruct Ha as [Hcol [Hbt Hne]]. destruct c as [|c0 c']; [congruence|].
-      change (si_spec (SLit q (c0 :: c') None)) with (c0 :: c').
-      destruct (fs_compile_plain (c0 :: c') (fs_split_nocolon (c0 :: c') None Hcol)) as [F O].
-      rewrite F, O, Hbt. simpl. auto.
+    + destruct Ha as [Hbt Hne]. destruct c as [|c0 c']; [congruence|].
+      change (si_spec (SLit q (c0 :: c') None)) with ((q :: (c0 :: c') ++ [q]) ++ 58 :: (c0 :: c')).
+      destruct (fs_compile_alias (q :: (c0 :: c') ++ [q]) (c0 :: c') (fs_closed_quoted q (c0 :: c') Hquote Hc)) as [F O].
+      rewrite F, O, Hbt. rewrite (fs_strip_bt_other q ((c0 :: c') ++ [q]) Hq96). simpl. auto.
 Qed.
 
 (* ---- the key set of a result ---- *)
